@@ -5,7 +5,7 @@
    interpretations `opq` of the constraints outside the vocabulary.  `accepts` = accepted by the account
    validation phase; `accepted` = additionally by the hand-modelled in-body guards of Spec.v. *)
 Require Import Base Constants Panic AnchorTypes AnchorSem Gate AccountsTable HandlerFacts Spec
-               AnchorSemLemmas AuthLemmas AuthFixture.
+               AnchorSemLemmas AuthLemmas AuthCell AuthFixture.
 Local Open Scope string_scope.
 Local Open Scope Z_scope.
 
@@ -171,12 +171,6 @@ Proof. exact liquidation_record_binding. Qed.
 (* Non-vacuity: on the (generated) projection of the harness fixture world, the deposit entry of the generated
    table accepts the authority and rejects a stranger and a bank of the foreign group; the table has 78
    entries; the classes used above are inhabited. *)
-Definition toy_pda (p : key) (l : list seed_val) : key :=
-  fold_left (fun acc s => acc * 1000003 +
-                          match s with VStr t => 7 + Z.of_nat (String.length t) * 131 +
-                                                  match t with String c _ => Z.of_nat (Ascii.nat_of_ascii c) | EmptyString => 0 end
-                                     | VKey k => 1 + 4 * k | VNum n => 2 + 4 * n end) l (1000000 + p).
-
 Example C08_nonvacuous :
   (let w := mkWorld (fixture_accounts toy_pda) fixture_now0 in
    let b := fun who bank vault =>
